@@ -238,6 +238,33 @@ static void h_op(void)
     h_out("%s", b);
     free(b); esl_gencode_WorkstateDestroy(wrk); esl_sqfile_Close(sqfp); esl_gencode_Destroy(g); esl_getopts_Destroy(go); unlink(path);
   }
+  else if (!strcmp(op, "hist")) {
+    /* hist [nt=rna] ops=<s<id>|a|u|r<k>|m<k>>,... r<k>|m<k>=<hex NCBI text>: a history of calls on ONE object (created = table 1);
+     * Read makes a new object that replaces the old one when it succeeds. Prints status and the whole object after every step. */
+    ESL_GENCODE *g = esl_gencode_Create(NT, AA); const char *os = h_arg("ops"); char *dup = strdup(os ? os : ""), *tok, *sv;
+    char *b = NULL; size_t cap = 0, len = 0; char tmp[64];
+    b = bufcat(b, &cap, &len, "ok");
+    for (tok = strtok_r(dup, ",", &sv); tok; tok = strtok_r(NULL, ",", &sv)) {
+      int st = eslOK; unsigned char init[64]; int c;
+      if      (tok[0] == 's') st = esl_gencode_Set(g, atoi(tok + 1));
+      else if (tok[0] == 'a') st = esl_gencode_SetInitiatorAny(g);
+      else if (tok[0] == 'u') st = esl_gencode_SetInitiatorOnlyAUG(g);
+      else if (tok[0] == 'r' || tok[0] == 'm') {
+        int64_t n; unsigned char *txt = h_unhex(h_arg(tok) ? h_arg(tok) : "-", &n);
+        ESL_FILEPARSER *efp = esl_fileparser_CreateMapped((char *) txt, (int) n); ESL_GENCODE *g2 = NULL;
+        st = esl_gencode_Read(efp, NT, AA, &g2);
+        if (st == eslOK) { esl_gencode_Destroy(g); g = g2; }
+        esl_fileparser_Destroy(efp); free(txt);
+      }
+      for (c = 0; c < 64; c++) init[c] = (unsigned char) g->is_initiator[c];
+      sprintf(tmp, " %s:%d:", h_status(st), g->transl_table); b = bufcat(b, &cap, &len, tmp);
+      b = bufcat(b, &cap, &len, h_hex(g->desc, (int64_t) strlen(g->desc))); b = bufcat(b, &cap, &len, ":");
+      b = bufcat(b, &cap, &len, h_hex(g->basic, 64)); b = bufcat(b, &cap, &len, ":");
+      b = bufcat(b, &cap, &len, h_hex(init, 64));
+    }
+    h_out("%s", b);
+    free(b); free(dup); esl_gencode_Destroy(g);
+  }
   else if (!strcmp(op, "decode")) {
     /* esl_gencode_DecodeDigicodon for any int: the three characters stored (a read outside sym[] dies under ASan) */
     ESL_GENCODE *g = esl_gencode_Create(NT, AA); char codon[4]; char *r;
